@@ -28,24 +28,27 @@ CHECKS = {
     "C17": {
         "quick": [
             {"name": NODE + "ZZ_C17_E12", "reach": ["E12 succeeded", "E12 failed", "E12 end", "E12 native tx to contract"], "bound": "contracts deployed in block 3: R (pays the funded account X one unit, then REVERTs) and P in {STOP | call(third,1) STOP | call(third,1) REVERT | call(third,1) INVALID} with third in {X, R}; block 4: one transaction by the proposer or another account: call of P with symbolic value, plain transfer to P, a deployment with value, or a set-document transaction addressed to P; gas limit symbolic in [10,20999] or [300000,2^24]; then a read-only call at the committed height", "validate": 40},
+            {"name": NODE + "ZZ_C17_E5", "reach": ["E5 setter succeeded", "E5 setter failed", "E5 end"], "bound": "storage-cell contract (program 7: RETURN slot 0 / slot 0 := calldata) deployed in block 3; three setter transactions with values out of {0,1,2}, by two senders, one of them (any) with a symbolic gas limit in [21000,2^24], the others with 200000, distributed over blocks 4 and 5 in all three ways; outcome, exact gas used (intrinsic + code + SSTORE per EIP-2929/2200/3529 - refund capped at 1/5), fee, nonce; storage read back by read-only calls at every committed height", "validate": 40},
         ],
-        "bounds": "4 hand-assembled programs, call depth <= 3, one contract transaction",
-        "outside": "NOT CLAIMED: equivalence with the reference EVM for every program (return data, logs, storage, code, exact gas) - go-ethereum's interpreter, trie and big.Int code are behind the A-EVM stub; only the repository's glue (StateDBWrapper copy-in/copy-out and revert bookkeeping, EVMCtrler.ExecuteTrx, routing in runTrx/postRunTrx, callVM) is executed symbolically, for the call sequences these programs produce",
-        "assumptions": A_COMMON + A_STORE + ["A-EVM: state.StateDB = journalled (balance, nonce) map with snapshot/revert, access list; core.ApplyMessage per go-ethereum v1.10.23 state_transition.go with the interpreter replaced by the semantics of the 4 programs; gas left is an arbitrary value <= limit - intrinsic", "A-SIG", "A-HASH"],
+        "bounds": "7 hand-assembled programs, call depth <= 3, one contract transaction (E12) or three on one storage cell (E5)",
+        "outside": "NOT CLAIMED: equivalence with the reference EVM for every program (logs, code, creates, self-destructs; return data, storage and exact gas only for the storage-cell program 7) - go-ethereum's interpreter, trie and big.Int code are behind the A-EVM stub; only the repository's glue (StateDBWrapper copy-in/copy-out and revert bookkeeping, EVMCtrler.ExecuteTrx, routing in runTrx/postRunTrx, callVM) is executed symbolically, for the call sequences these programs produce",
+        "assumptions": A_COMMON + A_STORE + ["A-EVM: state.StateDB = journalled (balance, nonce, storage with dirty/committed layers, refund counter) map with snapshot/revert, address and slot access lists, Finalise; core.ApplyMessage per go-ethereum v1.10.23 state_transition.go with the interpreter replaced by the semantics of the 7 programs; gas left is an arbitrary (per transaction content) value <= limit - intrinsic for programs 0-6 and exactly metered (EIP-2929/2200/3529) for program 7", "A-SIG", "A-HASH"],
     },
     "C18": {
         "quick": [
             {"name": LEDGER + "ZZ_C18_Seq3", "reach": ["C18 end"], "bound": "2 keys x 3 operations out of {SetFinality,GetFinality,DelFinality,Set,Get,Del,Read,Commit,ImmutableLedgerAt.Read,Close+reopen}, symbolic values, then a full sweep of all views/versions and a final Commit"},
             {"name": LEDGER + "ZZ_C18_Seq3b", "reach": ["C18 end"], "bound": "as Seq3, starting from a ledger whose version 1 already holds key 0"},
+            {"name": LEDGER + "ZZ_C18_Seq3c", "reach": ["C18 end", "C18 cancel undoes the pending change"], "bound": "as Seq3b without reopen, plus CancelSetFinality, CancelDelFinality, CancelSet, CancelDel: a cancel that undoes the single pending change of its key in that overlay restores the committed view (other cancels are outside the statement and end the path)"},
         ],
         "thorough": [
             {"name": LEDGER + "ZZ_C18_Seq3", "reach": ["C18 end"], "bound": "2 keys x 3 ops (+reopen)"},
             {"name": LEDGER + "ZZ_C18_Seq3b", "reach": ["C18 end"], "bound": "2 keys x 3 ops (+reopen), pre-seeded version 1"},
             {"name": LEDGER + "ZZ_C18_Seq4b", "reach": ["C18 end"], "bound": "2 keys x 4 ops, pre-seeded version 1", "validate": 40},
             {"name": LEDGER + "ZZ_C18_Seq4", "reach": ["C18 end"], "bound": "2 keys x 4 ops (+reopen)", "validate": 40},
+            {"name": LEDGER + "ZZ_C18_Seq4c", "reach": ["C18 end", "C18 cancel undoes the pending change"], "bound": "2 keys x 4 ops incl. the four Cancel* operations, pre-seeded version 1", "validate": 40},
         ],
         "bounds": "operation sequences of length 3 (quick) / 4 (thorough) over 2 keys, <=5 versions; item values symbolic int64",
-        "outside": "Cancel* operations and the mempool view of a key after a consensus delete (not fixed by the statement); longer sequences; more than 2 keys; IAVL/goleveldb internals (A-IAVL)",
+        "outside": "a Cancel* that does not undo the single pending change of its key, and the mempool view of a key after a consensus delete (neither is fixed by the statement); longer sequences; more than 2 keys; IAVL/goleveldb internals (A-IAVL)",
         "assumptions": A_COMMON + A_STORE,
         "maxpaths": 3000000,
     },
@@ -54,6 +57,7 @@ CHECKS = {
             {"name": LEDGER + "ZZ_C01_D1", "maporder": True, "native_repeat": 20, "reach": ["D1 end"], "bound": "two ledgers fed the same 1..3 updated items (symbolic values); EVERY permutation of every map iteration in SetFinality/Commit/refresh, independently per replica; with <=2 items also a second block with updates, a removal and a re-creation"},
             {"name": LEDGER + "ZZ_C01_D3", "reach": ["D3 end"], "bound": "3 ledger keys with symbolic leading bytes: Less is a strict total order, sorting is input-order independent"},
             {"name": NODE + "ZZ_C06_M1", "reach": ["M1 end"], "bound": "node-local mempool / query traffic (twin of C06): one injected CheckTx or Query around block 3", "validate": 4},
+            {"name": NODE + "ZZ_C07_R1", "reach": ["R1 end"], "bound": "a replica restarted at a block boundary against one that kept running (twin of C07): 'process' is node-local", "validate": 4},
             {"name": NODE + "ZZ_C01_D2", "native_repeat": 20, "reach": ["D2 end"], "bound": "twin applications in different data directories; replica A iterates every Go map ascending, replica B descending or rotated; genesis (2 validators in power bands, 3 accounts), 2 empty blocks, block 3 with two transactions from the menu {delegation, transfer, unbonding} with votes, block 4 with a missed vote"},
         ],
         "bounds": "D1: all iteration orders for <=3 dirty keys; D2: two fixed alternative orders per map for one block with 2 transactions; wall clock and data directory differ between replicas by construction (the model store's root hash ignores the directory, time.Now is a stub that never reaches an output)",
@@ -76,10 +80,11 @@ CHECKS = {
         "quick": [
             {"name": P + "ctrlers/types.ZZ_C03_I1", "reach": ["I1 equal encodings", "I1 different encodings"], "bound": "two symbolic transactions of the same type (8 types): all numeric fields symbolic over their full range (incl. every payload field), byte/string fields drawn from two values; equal signed encodings => equal fields"},
             {"name": NODE + "ZZ_C03_I23", "reach": ["I23 success", "I23 forged rejected", "I23 honest failure"] + OK_ALL, "bound": TXB + "; signature: honest | signed by another key | signed for another chain id | one of 8 fields (amount, nonce, gas, receiver, time, version, sender, payload/gas price) altered after signing"},
+            {"name": NODE + "ZZ_C03_I4", "reach": ["I4 end", "I4 honest second tx accepted"], "bound": "an honest transfer (symbolic amount) is delivered; then, in the same or the next block, a second transaction of the same sender (transfer or set-document, symbolic amount, other receiver, the then-current nonce) carrying the FIRST transaction's signature; crypto.Sig2Addr's own body is executed (only the curve recovery under it is a stub)"},
         ],
-        "bounds": "one transaction; 8 single-field alterations; the RLP encoding is modelled as an injective function of the struct the repository hands to rlp.Encode (its own narrowing casts are executed)",
+        "bounds": "one transaction; 8 single-field alterations; one lifted signature after the signed transaction was processed; the RLP encoding is modelled as an injective function of the struct the repository hands to rlp.Encode (its own narrowing casts are executed)",
         "outside": "the cryptography itself (A-SIG); injectivity of go-ethereum's RLP for the encoded struct (A-CODEC); CheckTx (does not verify signatures by design and has no effects - C06)",
-        "assumptions": A_COMMON + A_STORE + ["A-SIG: recovery yields the signer's address only for exactly the signed bytes; otherwise an unrelated address", "A-CODEC", "A-HASH", "A-GOV"],
+        "assumptions": A_COMMON + A_STORE + ["A-SIG: go-ethereum's SigToPub yields the signer's key only for the hash of exactly the signed bytes, otherwise an unrelated key (crypto.Sig2Addr, VerifyTrxRLP and the sender comparison are the repository's code and are executed)", "A-CODEC", "A-HASH", "A-GOV"],
     },
     "C04": {
         "quick": [
@@ -211,7 +216,7 @@ CHECKS = {
         "quick": [
             {"name": GOV + "ZZ_C15_G12", "reach": ["G12 accepted", "G12 rejected"], "bound": "2 validators (symbolic power) + 1 outsider as sender; symbolic start/period/applying heights and submission height; 0..2 options; symbolic governance parameters"},
             {"name": GOV + "ZZ_C15_G34", "reach": ["G34 accepted", "G34 rejected"], "bound": "stored proposal: 2 voters (symbolic power, optional earlier vote, optional re-vote), 2 options; one voting tx with arbitrary sender / proposal reference / symbolic choice and height"},
-            {"name": GOV + "ZZ_C15_G567", "reach": ["G567 applied", "G567 nothing won", "G567 still open"], "bound": "proposal with 3 voters x 2 options (symbolic powers, votes, re-vote), optionally a second proposal due at the same height; EndBlock+Commit at a symbolic height before the applying height, then at the applying height"},
+            {"name": GOV + "ZZ_C15_G567", "reach": ["G567 applied", "G567 nothing won", "G567 still open", "G567 common proposal passed"], "bound": "proposal with 3 voters x 2 options (symbolic powers, votes, re-vote), optionally a second proposal (parameter or off-chain 'common' type) due at the same height; EndBlock+Commit at a symbolic height before the applying height, then at the applying height"},
         ],
         "bounds": "<=3 voters, <=2 options, <=2 proposals; one life cycle (vote -> close -> apply -> commit)",
         "outside": "the JSON documents of the options themselves (A-CODEC: an option is an arbitrary GovParams value with a chosen subset of fields set); ties between two options that both reach 2/3 (possible only when the recorded total power is < 2); proposals of non-GOVPARAMS type",
